@@ -1236,7 +1236,7 @@ _BODIES = [b'', b'{"a": 1}', b'a=1&b=2&a=3', b'\xff\x00binary', b'{"k": "' + b'v
 _CTYPES = [None, _JSON, _FORM, 'text/plain', _JSON + '; charset=utf-8', 'APPLICATION/JSON', 'application/x-msgpack-not-installed', _FORM + '; charset=x']
 _CHUNKS = [(), (1, 1, 1), (0, 3, 0, 0, 2), (3,), (4096,), (0,), (1, 0, 1, 0, 1, 0, 7)]
 _READS = ['none', 'all', 'split', 'media', 'media_default', 'media!']
-_STATUSES = [None, 200, '201 Created', 201, 204, 304, 404, '204 Custom', '200 OK', 299, '404 Nope', 500, 418, 'HTTPStatus:202']
+_STATUSES = [None, 200, '201 Created', 201, 204, 304, 404, '204 Custom', '200 OK', 299, '404 Nope', 500, 418, 'HTTPStatus:202', 205, 'HTTPStatus:205', 206, 301, 599]
 _BODY_FORMS = [('none',), ('text', 'héllo'), ('text', ''), ('data', b'\x00\xffraw'), ('data', b''), ('media', {'k': [1, 'café', None]}), ('media', []),
                ('stream', [b'ab', b'', b'cde']), ('stream', []), ('stream_len', [b'ab', b'cde']), ('file', b'0123456789' * 900), ('file', b'')]
 _RESP_CTYPES = [None, 'text/plain; charset=utf-8', 'application/yaml']
